@@ -16,7 +16,7 @@ LOG=/tmp/vs/$NAME.log
 mkdir -p /tmp/vs; rm -rf "$W"; : > "$LOG"
 fail() { echo "SEED $NAME: REJECTED ($1)"; git -C /repo worktree remove --force "$W" >/dev/null 2>&1; exit 1; }
 /root/tools/mkwt.sh "$W" >>"$LOG" 2>&1 || fail "worktree"
-sed -e '/hydrodiy.__file__.startswith("\/tmp\/mut/d' "$S/demo.py" > /tmp/vs/$NAME.demo.py
+sed -e '/hydrodiy.__file__.startswith("\/tmp\/mut/d' -e '/^ *assert .*\/tmp\/mut.*hydrodiy.__file__/d' "$S/demo.py" > /tmp/vs/$NAME.demo.py
 cd "$W"
 PYTHONPATH=$W/src timeout 600 /venv/bin/python /tmp/vs/$NAME.demo.py >>"$LOG" 2>&1 || fail "demo fails on clean tree"
 if git apply --check "$S/patch.diff" 2>/dev/null; then git apply "$S/patch.diff"; APPLY=exact
